@@ -291,8 +291,16 @@ class Interp:
         m(st, env)
         if self.frame_fn and not self.spec:
             c = self.frame_contract(self.frame_fn[-1][0])
-            if c is not None and c.ghost_after and isinstance(st, (ast.Expr, ast.Assign, ast.AugAssign, ast.Delete)):
-                g = c.ghost_after.get(ast.unparse(st))
+            if c is not None and (c.ghost_after or c.ghost_prefix) and isinstance(st, (ast.Expr, ast.Assign, ast.AugAssign, ast.Delete)):
+                txt = ast.unparse(st)
+                g = c.ghost_after.get(txt)
+                if g is None:
+                    # a key ending in "..." matches every statement that starts with it (robust against edits of
+                    # the right-hand side: the ghost lemmas are then proved -- or refuted -- about the new code)
+                    for k2, v2 in c.ghost_prefix.items():
+                        if txt.startswith(k2):
+                            g = v2
+                            break
                 if g:
                     for gi, gs in enumerate(g):
                         if isinstance(gs, ast.Assert):
@@ -1006,12 +1014,17 @@ class Interp:
             return ops.eq(a, b)
         i = z3.Int(ctx.fresh_name("i_filt"))
         j = z3.Int(ctx.fresh_name("j_filt"))
+        # bounds of the axioms' quantifiers, for the bounded refuter
+        i2 = z3.Int(ctx.fresh_name("i_filt"))
+        QRANGES[i.decl().name()] = (z3.IntVal(0), r.length)
+        QRANGES[i2.decl().name()] = (z3.IntVal(0), r.length - 1)
+        QRANGES[j.decl().name()] = (z3.IntVal(0), n)
         ctx.assume(z3.And(r.length >= 0, r.length <= n), "filter-comprehension:length")
         ctx.assume(z3.ForAll([i], z3.Implies(z3.And(i >= 0, i < r.length),
                                               z3.And(f(i) >= 0, f(i) < n, same(ops.list_get(r, i), view.get(f(i))),
                                                      cond_on(ops.list_get(r, i))))),
                    "filter-comprehension:elements-are-selected-source-elements")
-        ctx.assume(z3.ForAll([i], z3.Implies(z3.And(i >= 0, i + 1 < r.length), f(i) < f(i + 1))),
+        ctx.assume(z3.ForAll([i2], z3.Implies(z3.And(i2 >= 0, i2 < r.length - 1), f(i2) < f(i2 + 1))),
                    "filter-comprehension:order-preserved")
         ctx.assume(z3.ForAll([j], z3.Implies(z3.And(j >= 0, j < n, cond_on(view.get(j))),
                                               z3.And(gi(j) >= 0, gi(j) < r.length, f(gi(j)) == j))),
